@@ -383,6 +383,11 @@ func (cs *ContractSet) parseFile(repo, path string) error {
 			} else if strings.HasPrefix(spec, "return") {
 				aa.Where = "return"
 				spec = strings.TrimPrefix(spec, "return")
+				if strings.HasPrefix(spec, "@") {
+					// return@loopN: returns dominated by loop N's header; return@after-loopN: those not inside any loop
+					aa.Target = spec[1:]
+					spec = ""
+				}
 			} else {
 				return fail(l, "bad at clause %q", rest[:i])
 			}
@@ -394,7 +399,9 @@ func (cs *ContractSet) parseFile(repo, path string) error {
 				aa.Nth = k
 				spec = spec[:j]
 			}
-			aa.Target = spec
+			if aa.Target == "" {
+				aa.Target = spec
+			}
 			curF.Asserts = append(curF.Asserts, aa)
 		default:
 			return fail(l, "unknown clause %q", w)
